@@ -272,8 +272,20 @@ def d5_partial(chk: Check) -> None:
     prog = chk.prog
     chk.rule("C04-D5", "subscripts and pops on the delete path are "
              "discharged by guard facts", floor=4)
-    for name in ("Processor._delete_nodes", "Processor.delete_nodes",
-                 "Processor.delete_gathered_nodes"):
+    names = ["Processor._delete_nodes", "Processor.delete_nodes",
+             "Processor.delete_gathered_nodes"]
+    # helpers of the delete path (the refusal pre-pass, C04-D4b)
+    dn0 = prog.func("Processor._delete_nodes")
+    for c in walk_local(dn0.node):
+        if isinstance(c, ast.Call) and src(c.func).startswith("self._"):
+            q = "Processor." + src(c.func)[5:]
+            try:
+                prog.func(q)
+            except Exception:  # pylint: disable=broad-except
+                continue
+            if q not in names:
+                names.append(q)
+    for name in names:
         fi = prog.func(name)
         for site in partial.find_sites(fi):
             if site.kind == "del":
@@ -639,7 +651,7 @@ def _deletion_record(dn: FuncInfo, loop: ast.For, item: str, par: str,
         for n in dn.node.body:
             if isinstance(n, ast.If) and \
                     src(n.test).replace(" ", "") == nm + "isNone" and \
-                    len(n.body) == 1 and isinstance(n.body[0], ast.Assign) \
+                    n.body and isinstance(n.body[0], ast.Assign) \
                     and src(n.body[0].targets[0]) == nm and \
                     src(n.body[0].value) in ("[]", "list()"):
                 fresh = True
@@ -805,9 +817,105 @@ def d10_at_most_once(chk: Check) -> None:
                      "than by appending the current item")
 
 
+def d4b_refusal_before_any_deletion(chk: Check) -> None:
+    """"Deleting the document root is refused ... and changes nothing."
+    The refusal inside the deleting loop comes too late when other nodes
+    were gathered with the root (`(/)+(/b)`: `b` is gone before the root's
+    turn).  The outermost call therefore inspects everything it was given
+    *before* the loop: a pre-pass that raises for a leaf whose parent is no
+    container, descends into virtual results by the same two tests as the
+    loop, and knows the same container kinds as the loop's ladder."""
+    prog = chk.prog
+    chk.rule("C04-D4b", "the outermost _delete_nodes call runs a refusal "
+             "pre-pass over all gathered nodes before its deleting loop; "
+             "the pre-pass agrees with the loop on virtual results and on "
+             "the container kinds", floor=3)
+    dn = prog.func("Processor._delete_nodes")
+    loop = [n for n in dn.node.body if isinstance(n, ast.For)][0]
+    nodes_par = dn.params()[1]
+    pre = None
+    for st in dn.node.body:
+        if st is loop:
+            break
+        for c in ast.walk(st):
+            if isinstance(c, ast.Call) and src(c.func).startswith("self._") \
+                    and c.args and src(c.args[0]) == nodes_par and \
+                    not src(c.func).endswith("._delete_nodes"):
+                try:
+                    cand = prog.func("Processor." + src(c.func)[5:])
+                except Exception:  # pylint: disable=broad-except
+                    continue
+                if any(isinstance(r, ast.Raise) and
+                       "NoDocumentYAMLPathException" in src(r)
+                       for r in walk_local(cand.node)):
+                    pre = (c, cand)
+    if pre is None:
+        chk.fail("C04-D4b", dn, loop, "refusal pre-pass",
+                 "nothing inspects the gathered nodes before the deleting "
+                 "loop: when the root is gathered together with other nodes "
+                 "those are deleted before the refusal is raised")
+        return
+    call, pf = pre
+    # reached on the outermost call (under `<record> is None`), any depth
+    rec = _deletion_record(dn, loop, "", "", "")
+    facts = [f for f in facts_at(call) if f.kind == "cond"]
+    outer_only = [f for f in facts if not (
+        f.pol and rec is not None and
+        src(f.expr).replace(" ", "") == rec + "isNone")]
+    if outer_only:
+        chk.fail("C04-D4b", dn, call, "pre-pass call",
+                 "the pre-pass is conditional on {}".format(
+                     repr(outer_only[0])[:60]))
+    else:
+        chk.ok("C04-D4b", dn, call, "pre-pass call",
+               "before the loop, on the outermost call")
+    # same virtual-result tests as the loop (normalised on the item name)
+    def virtual_tests(fn: ast.AST, item_hint: str) -> List[str]:
+        out = []
+        for n in walk_local(fn):
+            if isinstance(n, ast.If) and "NodeCoords" in src(n.test) and \
+                    "isinstance" in src(n.test):
+                out.append(src(n.test))
+        return sorted(out)
+    lt = virtual_tests(loop, "")
+    pt = virtual_tests(pf.node, "")
+    if lt and lt == pt:
+        chk.ok("C04-D4b", pf, pf.node, "virtual-result tests of the pre-pass",
+               "identical to the loop's: {}".format(len(pt)))
+    else:
+        chk.fail("C04-D4b", pf, pf.node, "virtual-result tests of the "
+                 "pre-pass", "the pre-pass unpacks virtual results by other "
+                 "tests than the loop ({} vs {}): a root hidden in a result "
+                 "the pre-pass does not open is met by the loop only"
+                 .format(pt, lt))
+    # container kinds: every class named by the loop's parent-kind ladder
+    # is accepted by the pre-pass
+    def kinds(fn: ast.AST, what: str) -> set:
+        ks = set()
+        for n in walk_local(fn):
+            if isinstance(n, ast.Call) and src(n.func) == "isinstance" and \
+                    len(n.args) == 2 and what in src(n.args[0]) and \
+                    isinstance(n.args[1], ast.Tuple):
+                ks |= {src(e) for e in n.args[1].elts}
+        return ks
+    from sa.ladders import EXTERNAL_BASES
+    lk, pk = kinds(loop, "parent"), kinds(pf.node, "parent")
+    missing = sorted(k for k in lk if k not in pk and
+                     not (set(EXTERNAL_BASES.get(k, ())) & pk))
+    if lk and not missing:
+        chk.ok("C04-D4b", pf, pf.node, "container kinds of the pre-pass",
+               "covers {}".format(sorted(lk)))
+    else:
+        chk.fail("C04-D4b", pf, pf.node, "container kinds of the pre-pass",
+                 "the loop deletes from {} but the pre-pass does not accept "
+                 "{}: deleting a member of such a container is refused as "
+                 "if it were the root".format(sorted(lk), missing))
+
+
 def run(chk: Check) -> None:
     d1_d2(chk)
     d3_d4(chk)
+    d4b_refusal_before_any_deletion(chk)
     d5_partial(chk)
     d6_always_acts(chk)
     d5b_empty_list_is_a_node(chk)
